@@ -132,3 +132,66 @@ Proof.
       { rewrite E. apply Z.div_mul. pose proof (Z.pow_pos_nonneg 2 (ctz_pos p) ltac:(lia) CN). lia. }
       rewrite D. rewrite <- E. rewrite Z.eqb_refl. rewrite O. cbn [Z.eqb Pos.eqb]. eexists. reflexivity.
 Qed.
+
+(* ------------------------------------------------------------------ the pass *)
+Lemma mapM_Forall2 {A B} (g : A -> res B) (P : A -> B -> Prop) : (forall x y, g x = Ok y -> P x y) ->
+  forall l l', mapM g l = Ok l' -> Forall2 P l l'.
+Proof.
+  intros Hg. induction l as [|x t IH]; intros l' H; cbn in H.
+  - injection H as <-. constructor.
+  - destruct (g x) as [y|] eqn:Gx; [cbn [bind] in H | discriminate].
+    destruct (mapM g t) as [t'|] eqn:Gt; [cbn [bind] in H | discriminate].
+    injection H as <-. constructor; [apply Hg; exact Gx | apply IH; reflexivity].
+Qed.
+
+Lemma mod_small_W x : 0 <= x < W -> x mod W = x.
+Proof. intros H. apply Z.mod_small. exact H. Qed.
+
+Lemma lit_inst_equiv lv ins ins' : lit_inst ins = Ok ins' -> iequiv lv ins ins'.
+Proof.
+  unfold lit_inst. destruct ins as [op args outs]. cbn [i_op i_args i_outs].
+  destruct (String.eqb op "assign") eqn:Eo; [|intros H; injection H as <-; left; reflexivity].
+  apply String.eqb_eq in Eo. subst op.
+  destruct args as [|[v|x|l] [|a2 t]]; try (intros H; injection H as <-; left; reflexivity).
+  destruct outs as [|o [|o2 t]]; try (intros H; injection H as <-; left; reflexivity).
+  destruct (lit_decide v) as [[[k a] b]|] eqn:D; [cbn [bind] | discriminate].
+  destruct (lit_decide_sound v k a b D) as [_ [S1 S2]].
+  destruct (k =? 1) eqn:K1.
+  { apply Z.eqb_eq in K1. destruct (S1 K1) as [Ra Ea]. intros H. injection H as <-. right.
+    split; [reflexivity | split; [reflexivity | split; [reflexivity|]]].
+    intros g g' c Sg Sg'. cbn in Sg, Sg'. injection Sg as <-. injection Sg' as <-.
+    cbn [oval]. rewrite (mod_small_W a Ra). symmetry. exact Ea. }
+  destruct (k =? 2) eqn:K2.
+  { apply Z.eqb_eq in K2. destruct (S2 K2) as [Ra [Rb Eb]]. intros H. injection H as <-. right.
+    split; [reflexivity | split; [reflexivity | split; [reflexivity|]]].
+    intros g g' c Sg Sg'. cbn in Sg, Sg'. injection Sg as <-. injection Sg' as <-.
+    cbn [oval]. rewrite (mod_small_W a Ra). rewrite (mod_small_W b) by (pose proof W_val; lia). symmetry. exact Eb. }
+  intros H. injection H as <-. left. reflexivity.
+Qed.
+
+(* ReduceLiteralsCodesize preserves behaviour: same visible events, same outcome, for every label valuation,
+   environment and initial variable values *)
+Theorem lit_pass_correct f f' : lit_pass f = Ok f' -> beh_equiv f f'.
+Proof.
+  intros H. apply pointwise_beh. intros lv.
+  apply (mapM_Forall2 (mapM lit_inst) (Forall2 (iequiv lv))); [|exact H].
+  intros blk blk' Hb. apply (mapM_Forall2 lit_inst (iequiv lv)); [|exact Hb].
+  intros x y. apply lit_inst_equiv.
+Qed.
+
+(* the model of the pass is total: it never fails on any function *)
+Lemma mapM_total {A B} (g : A -> res B) : (forall x, exists y, g x = Ok y) -> forall l, exists l', mapM g l = Ok l'.
+Proof.
+  intros Hg. induction l as [|x t [t' IH]]; [exists []; reflexivity|].
+  destruct (Hg x) as [y Gy]. exists (y :: t'). cbn. rewrite Gy. cbn [bind]. rewrite IH. reflexivity.
+Qed.
+
+Theorem lit_pass_total f : exists f', lit_pass f = Ok f'.
+Proof.
+  apply mapM_total. intros blk. apply mapM_total. intros ins.
+  unfold lit_inst. destruct (String.eqb (i_op ins) "assign"); [|eexists; reflexivity].
+  destruct (i_args ins) as [|[v|x|l] [|a2 t]]; try (eexists; reflexivity).
+  destruct (i_outs ins) as [|o [|o2 t]]; try (eexists; reflexivity).
+  destruct (lit_decide_total v) as [[[k a] b] ->]. cbn [bind].
+  destruct (k =? 1); [eexists; reflexivity|]. destruct (k =? 2); eexists; reflexivity.
+Qed.
